@@ -437,6 +437,16 @@ func stateRules(c *Ctx) {
 				vl = append(vl, l...)
 				vOpaque = vOpaque || o
 			}
+			// a function literal without parameters of its own (a deferred "remember the results"): key and
+			// value are variables of the enclosing function; read them there, in its parameter names
+			pg := g
+			if g.Parent() != nil && len(g.Params) == 0 {
+				if fk, okK := freeLeaves(g, unwrapIface(k)); okK {
+					if fv, okV := freeLeaves(g, unwrapIface(v)); okV {
+						kl, vl, vOpaque, pg = fk, fv, false, g.Parent()
+					}
+				}
+			}
 			var missing []string
 			seen := map[string]bool{}
 			for _, l := range vl {
@@ -490,13 +500,13 @@ func stateRules(c *Ctx) {
 			case readsFile != "":
 				c.bad("STATE", key, i.Pos(), fmt.Sprintf("%s remembers in package-level %s what it read through %s: the file is not an argument, so a later call for the same key returns the remembered content although the file has changed (and every caller shares the remembered value)", short1, what, readsFile))
 			case len(missing) > 0 && len(kl) > 0:
-				c.bad("STATE", key, i.Pos(), fmt.Sprintf("%s remembers in package-level %s, under a key computed from %s, a value computed from %s: a later call whose arguments agree in the key but differ there is answered with the earlier call's value", short1, what, strings.Join(pretty(g, kl), ", "), strings.Join(pretty(g, missing), ", ")))
+				c.bad("STATE", key, i.Pos(), fmt.Sprintf("%s remembers in package-level %s, under a key computed from %s, a value computed from %s: a later call whose arguments agree in the key but differ there is answered with the earlier call's value", short1, what, strings.Join(pretty(pg, kl), ", "), strings.Join(pretty(pg, missing), ", ")))
 			case len(missing) > 0:
-				c.undecided("STATE", key, i.Pos(), fmt.Sprintf("%s remembers a value computed from %s in package-level %s; what the key is computed from is not visible", short1, strings.Join(pretty(g, missing), ", "), what))
+				c.undecided("STATE", key, i.Pos(), fmt.Sprintf("%s remembers a value computed from %s in package-level %s; what the key is computed from is not visible", short1, strings.Join(pretty(pg, missing), ", "), what))
 			case vOpaque:
 				c.undecided("STATE", key, i.Pos(), fmt.Sprintf("%s remembers a value in package-level %s; not everything the value is computed from is visible", short1, what))
 			default:
-				c.ok("STATE", key, i.Pos(), fmt.Sprintf("everything the remembered value is computed from (%s) is part of the key (%s)", strings.Join(pretty(g, vl), ", "), strings.Join(pretty(g, kl), ", ")))
+				c.ok("STATE", key, i.Pos(), fmt.Sprintf("everything the remembered value is computed from (%s) is part of the key (%s)", strings.Join(pretty(pg, vl), ", "), strings.Join(pretty(pg, kl), ", ")))
 			}
 		})
 		// ---- data used as a format string
@@ -1761,4 +1771,135 @@ func isTextType(t types.Type) bool {
 		return ok && b.Kind() == types.Byte
 	}
 	return false
+}
+
+
+// freeLeaves: v, inside the function literal g, is computed from variables of the enclosing function only.
+// Returns what those variables are computed from there, as access paths rooted at the ENCLOSING function's
+// parameters; ok is false when v also depends on something that cannot be read this way.
+func freeLeaves(g *ssa.Function, v ssa.Value) (leaves []string, ok bool) {
+	parent := g.Parent()
+	if parent == nil {
+		return nil, false
+	}
+	var mc *ssa.MakeClosure
+	eachInstr(parent, func(i ssa.Instruction) {
+		if m, isM := i.(*ssa.MakeClosure); isM && m.Fn == ssa.Value(g) {
+			mc = m
+		}
+	})
+	if mc == nil {
+		return nil, false
+	}
+	ptb := newTB(parent)
+	ok = true
+	seenL := map[string]bool{}
+	add := func(t *Term) {
+		l, o := argLeaves(t)
+		for _, x := range l {
+			if !seenL[x] {
+				seenL[x] = true
+				leaves = append(leaves, x)
+			}
+		}
+		if o {
+			// merges of values are fine here (every alternative's leaves are collected); only what has no
+			// readable origin at all makes the answer incomplete
+			if t.contains(func(x *Term) bool { return x.Op == "freevar" || x.Op == "unknown" || x.Op == "closure" }) {
+				ok = false
+			}
+		}
+	}
+	bind := func(fv *ssa.FreeVar) {
+		for i, f := range g.FreeVars {
+			if f != fv || i >= len(mc.Bindings) {
+				continue
+			}
+			b := mc.Bindings[i]
+			a, isCell := b.(*ssa.Alloc)
+			if !isCell {
+				add(ptb.T(b))
+				return
+			}
+			n := 0
+			var stores func(addr ssa.Value, d int)
+			stores = func(addr ssa.Value, d int) {
+				if addr.Referrers() == nil || d > 3 {
+					return
+				}
+				for _, r := range *addr.Referrers() {
+					switch x := r.(type) {
+					case *ssa.Store:
+						if x.Addr == addr {
+							n++
+							add(ptb.T(x.Val))
+						}
+					case *ssa.FieldAddr:
+						stores(x, d+1)
+					case *ssa.IndexAddr:
+						stores(x, d+1)
+					}
+				}
+			}
+			stores(a, 0)
+			if n == 0 {
+				ok = false
+			}
+			return
+		}
+		ok = false
+	}
+	seen := map[ssa.Value]bool{}
+	var visit func(x ssa.Value, d int)
+	visit = func(x ssa.Value, d int) {
+		if x == nil || seen[x] {
+			return
+		}
+		seen[x] = true
+		if d > 20 {
+			ok = false
+			return
+		}
+		switch y := x.(type) {
+		case *ssa.FreeVar:
+			bind(y)
+		case *ssa.Const, *ssa.Global, *ssa.Function, *ssa.Builtin:
+		case *ssa.Parameter:
+			ok = false
+		case *ssa.Alloc:
+			// a local container: whatever is stored into it
+			var into func(addr ssa.Value, dd int)
+			into = func(addr ssa.Value, dd int) {
+				if addr.Referrers() == nil || dd > 3 {
+					return
+				}
+				for _, r := range *addr.Referrers() {
+					switch z := r.(type) {
+					case *ssa.Store:
+						if z.Addr == addr {
+							visit(z.Val, d+1)
+						}
+					case *ssa.FieldAddr:
+						into(z, dd+1)
+					case *ssa.IndexAddr:
+						into(z, dd+1)
+					}
+				}
+			}
+			into(y, 0)
+		default:
+			in, isInstr := x.(ssa.Instruction)
+			if !isInstr {
+				ok = false
+				return
+			}
+			for _, op := range in.Operands(nil) {
+				if *op != nil {
+					visit(*op, d+1)
+				}
+			}
+		}
+	}
+	visit(v, 0)
+	return leaves, ok && len(leaves) > 0
 }
